@@ -333,6 +333,16 @@ class IEG:
                 src = rv["op"].get("move") or rv["op"].get("copy")
                 if src is not None:
                     newv = self._shape_at(known, src)
+                elif "const" in rv["op"] and rv["op"]["const"].get("k") == "int" and "def" not in rv["op"]["const"] \
+                        and rv["op"]["const"].get("ty") == "bool":
+                    # a boolean literal (e.g. the arms of `matches!`): remembered like a two-variant enum, value = variant
+                    newv = (int(rv["op"]["const"]["v"]), ())
+            elif rv["k"] == "un" and rv.get("op") == "Not":
+                src = rv["a"].get("move") or rv["a"].get("copy")
+                sh = self._shape_at(known, src) if src is not None else None
+                lty = n.frame.body.locals[l]["ty"]
+                if sh is not None and sh[0] in (0, 1) and (lty.get("s") if isinstance(lty, dict) else lty) == "bool":
+                    newv = (1 - sh[0], ())
             if newv is not None:
                 known[l] = newv
             else:
@@ -403,7 +413,13 @@ class IEG:
                 cval = int(t["discr"]["const"]["v"])
             else:
                 op = t["discr"].get("move") or t["discr"].get("copy")
-                if op is not None and "p" not in op:
+                if op is not None and "p" not in op and t.get("dty") == "bool":
+                    # a boolean whose value is known along this path (assigned from literals on the way here)
+                    sh0 = self._known(tag).get(op["l"])
+                    reassigned = any(st["k"] == "assign" and "p" not in st["place"] and st["place"]["l"] == op["l"] for st in n.stmts)
+                    if sh0 is not None and sh0[0] in (0, 1) and not sh0[1] and not reassigned:
+                        cval = sh0[0]
+                if cval is None and op is not None and "p" not in op:
                     for st in n.stmts:
                         if st["k"] == "assign" and "p" not in st["place"] and st["place"]["l"] == op["l"]:
                             rv = st["rv"]
